@@ -94,6 +94,39 @@ def port_tables(F, rep):
                 break
     en = F.enums.get("game::Port")
     variants = [v["name"] for v in en["variants"]] if en else []
+    if b is not None and not parse and en:
+        # NAMES.iter().position(|&n| n == s) .. Port::try_from(index as u8) ..: the i-th name parses to the variant with discriminant i
+        root = b["tir"]["value"]
+        sname = b["tir"]["params"][0].get("name")
+        pos = [x for x in tir.walk(root) if x.get("k") == "MethodCall" and x["method"] == "position" and (declared(x) or "").endswith("Iterator::position")]
+        conv = [x for x in tir.walk(root) if x.get("k") == "Call" and (declared(x) or "").endswith("TryFrom::try_from") and "game::Port" in (x.get("ty") or "")]
+        if len(pos) == 1 and len(conv) == 1:
+            it = strip(pos[0]["recv"])
+            src = strip(it["recv"]) if it.get("k") == "MethodCall" and it["method"] == "iter" else {}
+            names = None
+            if src.get("k") == "Path" and src.get("res") == "def":
+                cb = F.const_body(src.get("path"))
+                arr = strip(cb["tir"]["value"]) if cb and cb.get("tir") else {}
+                if arr.get("k") == "Array" and all(strip(e).get("k") == "Lit" and strip(e).get("lit") == "str" for e in arr["elems"]):
+                    names = [strip(e)["v"] for e in arr["elems"]]
+            cl = strip(pos[0]["args"][0])
+            eq = strip(cl["body"]) if cl.get("k") == "Closure" else {}
+            pid = None
+            if cl.get("k") == "Closure" and len(cl["params"]) == 1:
+                q = cl["params"][0]
+                while q.get("k") == "Ref":
+                    q = q["pat"]
+                pid = q.get("id")
+            sides = [strip(eq.get("l") or {}), strip(eq.get("r") or {})] if eq.get("k") == "Binary" and eq.get("op") == "Eq" else []
+            cmp_ok = len(sides) == 2 and {sides[0].get("id") == pid, sides[1].get("id") == pid} == {True, False} and sname in (sides[0].get("name"), sides[1].get("name"))
+            # the index reaches Port::try_from only through value-preserving conversions (and_then / ok / try_from / as)
+            other_calls = [declared(x) or x.get("method") for x in tir.walk(root) if x.get("k") in ("Call", "MethodCall") and not tir.in_macro(x, "format", "format_args")
+                           and (x.get("method") or (declared(x) or "").split("::")[-1]) not in ("iter", "position", "and_then", "ok", "try_from", "ok_or_else", "ok_or", "map", "from", "into", "must_use", "format")]
+            by_discr = {v["discr"]: v["name"] for v in en["variants"]}
+            if names and cmp_ok and not other_calls and len(set(names)) == len(names):
+                parse = {nm: by_discr[i] for i, nm in enumerate(names) if i in by_discr}
+                if len(parse) != len(names):
+                    parse = {}
     rep.ob("E6.port.display", sorted(disp) == sorted(variants) and len(variants) == 4, "<game::Port as std::fmt::Display>::fmt", "table",
            "Display for Port covers %s, enum has %s" % (sorted(disp), variants), sample={"display": disp})
     inv = all(parse.get(s) == v for v, s in disp.items()) and len(parse) == len(disp)
